@@ -60,17 +60,35 @@ Proof. exact canary_pointers_valid. Qed.
 Print Assumptions C36_canary_pointers_valid.
 
 (* thread exits do not leak thread states: the state of an exited thread is destroyed, or queued
-   in the zombie list (destroyed by the next registration), or being destroyed right now *)
+   in the zombie list (destroyed by the next registration), or being destroyed right now — unless
+   its canary had been deallocated under cffi's feet while the thread was alive (EvDictDrop: then
+   the extra gilstate_counter reference is never given back and the state lives until Py_Finalize;
+   it stays valid and private to its thread, see C36_valid_thread_state / C36_distinct) *)
 Theorem C36_no_leak : forall s t ts, reach s -> thr s t = Exited -> gts s t = Some ts ->
   tss s ts = TsDeleted \/
   (exists c, In c (zombies s) /\ cans s c = CAlive ts None true) \/
-  (exists t' c, reg s = Some (t', Clearing c ts)).
+  (exists t' c, reg s = Some (t', Clearing c ts)) \/
+  dropped s ts = true.
 Proof. exact no_leak. Qed.
 Print Assumptions C36_no_leak.
 
 Theorem C36_runner_sound : forall s e s', reach s -> mstep s e = Some s' -> reach s'.
 Proof. exact mstep_reach. Qed.
 Print Assumptions C36_runner_sound.
+
+(* the line `ob->tls->local_thread_canary = NULL` of thread_canary_dealloc is what keeps
+   C36_canary_pointers_valid true across EvDictDrop / EvFinalize: after the canary of a live thread
+   has been deallocated, the thread's tls points to no canary, so its later exit links nothing *)
+Theorem C36_drop_clears_backpointer : forall s t s', reach s -> step s (EvDictDrop t) s' ->
+  tlsc s' t = Some None /\ exists ts, gts s' t = Some ts /\ dropped s' ts = true /\
+  exists k, tss s' ts = TsLive t k None.
+Proof. exact drop_clears_backpointer. Qed.
+Print Assumptions C36_drop_clears_backpointer.
+
+Example C36_example_drop :
+  mrun 2 init [MCb 0; MDrop 0; MCbEnd 0; MCb 0; MCbEnd 0; MExit 0; MCb 1; MCbEnd 1; MExit 1]
+  = Some [[1;0;0;0]; [0;0;0;0]; [0;0;0;0]; [1;0;0;0]; [0;0;0;0]; [0;0;0;0]; [2;0;0;0]; [0;0;0;0]; [0;0;0;0]].
+Proof. vm_compute. reflexivity. Qed.
 
 (* non-vacuity: two threads call back, overlap, thread 0 exits, a third thread's first callback
    sweeps its state; then finalization *)
